@@ -57,22 +57,7 @@ func Parts(c *core.C, arm Arm) []ksim.Part {
 		return ksim.Part{Name: name, Sc: sc, Cfg: ksim.Config{MaxDepth: depth}, Share: share}
 	}
 	parts := []ksim.Part{
-		// A sends stake over each of the three routes with a near timeout: receive vs timeout races, duplicates, two in flight
-		mk("2c/macro/fresh/three-routes", 7+d, 0.15, &TW{Sync: true, SendFrom: []int{0}, Routes: []int{RV1, RAlias, RClient}, Timeouts: []int{ToNext},
-			Bases: []string{Stake}, MaxPkts: 2, MaxCommits: mc}),
-		// error acknowledgements: receiver is a blocked module account, or receive is switched off by the authority; relays signed by a user
-		mk("2c/macro/fresh/receive-failures", 7+d, 0.2, &TW{Sync: true, SendFrom: []int{0}, Routes: []int{RV1, RAlias}, Receivers: []int{RcvUser0, RcvBlocked}, Timeouts: []int{ToFar},
-			Bases: []string{Stake}, MaxPkts: 2, MaxCommits: mc, Toggles: 1, ToggleOn: []int{1}, NoTimeout: true, Relayer: 1}),
-		// MsgTransfer's "entire balance", v1 timeout by height and by timestamp, MsgTransfer{use_aliasing}, the slashed native a/b
-		mk("2c/macro/fresh/amounts-timeouts-slash-denom", 6+d, 0.2, &TW{Sync: true, SendFrom: []int{0}, Routes: []int{RV1, RMsgAlias}, Amounts: []int{1}, Timeouts: []int{ToNext, ToNextTime},
-			MaxPkts: 2, MaxCommits: mc, NoAck: true}),
-		// B holds vouchers of A's stake (channel path and client path) and sends them back over every route, also across paths
-		mk("2c/macro/vouchers-return", 6+d, 0.45, &TW{Sync: true, Prefix: vouchersOnB(), SkipPrefix: true, SendFrom: []int{1}, Kind: 2, Routes: []int{RV1, RAlias, RClient}, Amounts: []int{0, 1},
-			Timeouts: []int{ToNext}, MaxPkts: 2, MaxCommits: mc, Toggles: 1, ToggleOn: []int{0}, Relayer: 1}),
-		// both chains send their native stake at the same time over the same channel / client pair
-		mk("2c/macro/both-directions", 6+d, 0.3, &TW{Sync: true, Routes: []int{RV1, RMsgClient}, Timeouts: []int{ToNext}, Bases: []string{Stake}, Kind: 1, MaxPkts: 2, MaxCommits: 1}),
-		// primitive commit / update steps, relays with any of the three newest consensus heights
-		mk("2c/micro/primitive-stale-proofs", 7+d, 0.5, &TW{Stale: true, SendFrom: []int{0}, Routes: []int{RV1, RClient}, Timeouts: []int{ToNext}, Bases: []string{Stake}, MaxPkts: 1, MaxCommits: mc}),
+		// (the small, identifier-sensitive parts run first so that a loaded machine cannot starve them)
 		// two links between A and B (A: 07-tendermint-0/channel-1 and 07-tendermint-1/channel-2, B: 07-tendermint-1/channel-0 and
 		// 07-tendermint-2/channel-1): the far end's identifier of one link is the near end's identifier of the other, so a handler
 		// that takes the counterparty's identifier moves the other link's escrow; every transfer is refused by the destination
@@ -83,8 +68,24 @@ func Parts(c *core.C, arm Arm) []ksim.Part {
 		mk("2c/macro/two-links/voucher-over-other-link-refused", 5+d, 0.35, &TW{Topo: twoLinks, Sync: true, Prefix: voucherOnBViaLink1(), SkipPrefix: true, SendFrom: []int{1}, Links: []int{0}, Kind: 2,
 			Routes: []int{RV1, RAlias, RClient}, Receivers: []int{RcvBlocked, RcvUser0}, Timeouts: []int{ToFar}, MaxPkts: 1, MaxCommits: 1, NoTimeout: true, Relayer: 1}),
 		// MsgSendPacket whose signer is not the payload's sender, next to the matching sends of both users
-		mk("2c/macro/signer-mismatch", 4+d, 0, &TW{Sync: true, Mismatch: true, Senders: []int{0, 1}, SendFrom: []int{0}, Routes: []int{RAlias, RClient, RMsgAlias}, Receivers: []int{RcvUser1}, Timeouts: []int{ToFar},
+		mk("2c/macro/signer-mismatch", 4+d, 0.3, &TW{Sync: true, Mismatch: true, Senders: []int{0, 1}, SendFrom: []int{0}, Routes: []int{RAlias, RClient, RMsgAlias}, Receivers: []int{RcvUser1}, Timeouts: []int{ToFar},
 			MaxPkts: 2, MaxCommits: 1, Relayer: 1}),
+		// A sends stake over each of the three routes with a near timeout: receive vs timeout races, duplicates, two in flight
+		mk("2c/macro/fresh/three-routes", 7+d, 0.15, &TW{Sync: true, SendFrom: []int{0}, Routes: []int{RV1, RAlias, RClient}, Timeouts: []int{ToNext},
+			Bases: []string{Stake}, MaxPkts: 2, MaxCommits: mc}),
+		// error acknowledgements: receiver is a blocked module account, or receive is switched off by the authority; relays signed by a user
+		mk("2c/macro/fresh/receive-failures", 7+d, 0.2, &TW{Sync: true, SendFrom: []int{0}, Routes: []int{RV1, RAlias}, Receivers: []int{RcvUser0, RcvBlocked}, Timeouts: []int{ToFar},
+			Bases: []string{Stake}, MaxPkts: 2, MaxCommits: mc, Toggles: 1, ToggleOn: []int{1}, NoTimeout: true, Relayer: 1}),
+		// MsgTransfer's "entire balance", v1 timeout by height and by timestamp, MsgTransfer{use_aliasing}, the slashed native a/b
+		mk("2c/macro/fresh/amounts-timeouts-slash-denom", 6+d, 0.2, &TW{Sync: true, SendFrom: []int{0}, Routes: []int{RV1, RMsgAlias}, Amounts: []int{1}, Timeouts: []int{ToNext, ToNextTime},
+			MaxPkts: 2, MaxCommits: mc, NoAck: true}),
+		// B holds vouchers of A's stake (channel path and client path) and sends them back over every route, also across paths
+		mk("2c/macro/vouchers-return", 6+d, 0.45, &TW{Sync: true, Prefix: vouchersOnB(), SkipPrefix: true, SendFrom: []int{1}, Kind: 2, Routes: []int{RV1, RAlias, RClient}, Amounts: core.Pick(c, []int{0}, []int{0, 1}),
+			Timeouts: []int{ToNext}, MaxPkts: 2, MaxCommits: mc, Toggles: 1, ToggleOn: []int{0}, Relayer: 1}),
+		// both chains send their native stake at the same time over the same channel / client pair
+		mk("2c/macro/both-directions", 6+d, 0.3, &TW{Sync: true, Routes: []int{RV1, RMsgClient}, Timeouts: []int{ToNext}, Bases: []string{Stake}, Kind: 1, MaxPkts: 2, MaxCommits: 1}),
+		// primitive commit / update steps, relays with any of the three newest consensus heights
+		mk("2c/micro/primitive-stale-proofs", 7+d, 0, &TW{Stale: true, SendFrom: []int{0}, Routes: []int{RV1, RClient}, Timeouts: []int{ToNext}, Bases: []string{Stake}, MaxPkts: 1, MaxCommits: mc}),
 	}
 	if !c.Quick() {
 		all := []int{RV1, RAlias, RClient, RMsgAlias, RMsgClient}
@@ -120,6 +121,8 @@ func Run(c *core.C, arm Arm) {
 	ksim.RunParts(c, parts, [][]ksim.Op{
 		{xfer(0, 0, RV1, 0, stakeOf(0), 0, RcvUser0, ToNext), syncOp(1), {K: OpTimeout, A: []int{0, 8}}, {K: OpTimeout, A: []int{0, 8}}},
 		{xfer(0, 0, RAlias, 0, stakeOf(0), 0, RcvBlocked, ToFar), syncOp(0), {K: OpRecv, A: []int{0, 8}}, syncOp(1), {K: OpAck, A: []int{0, 8}}},
+		// two-links part: both client pairs carry a refused transfer; the error ack of the first must be refunded from the first pair's escrow
+		{xfer(0, 0, RClient, 0, stakeOf(0), 0, RcvBlocked, ToFar), xfer(0, 1, RClient, 0, stakeOf(0), 0, RcvBlocked, ToFar), syncOp(0), {K: OpRecv, A: []int{0, 12}}, syncOp(1), {K: OpAck, A: []int{0, 12}}},
 	})
 	c.Set("alphabet", "xfer(chain, route in {MsgTransfer over the v1 channel, MsgSendPacket over the channel's v2 alias, MsgSendPacket client-to-client, MsgTransfer{use_aliasing}, MsgTransfer to a client id}, sender user, denom held incl. vouchers, amount in {1, all}, receiver in {user0, user1, blocked module account}, timeout in {far, next destination block by height/seconds, next block by v1 timestamp}) | badsend(MsgSendPacket signer != payload sender, 3 signers x 2 owners) | sync(chain) = commit + honest client updates (macro parts) | commit / update (primitive part, relays with any of the 3 newest consensus heights) | recv / ack / timeout for every packet ever sent, always enabled | rxflip(chain) = MsgUpdateParams by the authority toggling receive_enabled")
 	c.Set("bounds", "2 chains (thorough: also 3 chains in a line), 2 users per chain funded 2 stake + 2 a/b and 1 stake, at most 2 transfers in flight, at most 2 new transfers per part, per-part depth and commit bounds as listed under parts")
